@@ -664,11 +664,15 @@ def ext_wf(e):
     return len(e.ltw) in (0, 2) and len(e.piecewise) in (0, 3) and len(e.seamless_splice) in (0, 5)
 
 def ext_expected(e):
-    """bytes of the extension: ISO layout, except that the library's length byte also counts itself
-    (see notes/mpeg.md, observation E1) -- body compared with the Spec, length byte with the code's convention"""
-    r = _spec([gen.F("spec.Ext.encode", _o(e.ltw or None), _o(e.piecewise or None), _o(e.seamless_splice or None))])[0]
-    iso = bytes.fromhex(r[4:])
-    return bytes([iso[0] + 1]) + iso[1:]
+    """bytes of the extension as the library codes it: `Spec.MPEG.extensionAsCoded` (ISO body, length byte
+    counting itself -- notes/mpeg.md, observation E1).  The ISO-conformant `Spec.MPEG.afExtension` is asked
+    too and must differ from it by exactly +1 in the first byte (Lean: `Ext_asCoded_iso_plus_one`)."""
+    args = (_o(e.ltw or None), _o(e.piecewise or None), _o(e.seamless_splice or None))
+    rc, ri = _spec([gen.F("spec.Ext.asCoded", *args), gen.F("spec.Ext.encode", *args)])
+    coded, iso = bytes.fromhex(rc[4:]), bytes.fromhex(ri[4:])
+    if coded != bytes([(iso[0] + 1) % 256]) + iso[1:]:
+        raise AssertionError("Spec.extensionAsCoded %s is not Spec.afExtension %s with length byte + 1" % (hexb(coded), hexb(iso)))
+    return coded
 
 def af_wf(af):
     """every part absent or of its size, flags not set without their part, everything fits one byte"""
@@ -1041,6 +1045,52 @@ def check_stanag(args):
         return "re-encoding the decoded STANAG4609 gives different bytes"
     return None
 
+def garbage_packet(rng):
+    """at most 188 arbitrary bytes that MPEGPacket.unpack is likely to accept: sync forced, adaptation control and the
+    adaptation length / flags bytes drawn from the values that steer the decoder (truncated parts, every flag subset)"""
+    n = rng.choice([188, 188, 188, 187, 100, 12, 6, 5, 4])
+    b = bytearray(rng.bytes_(n))
+    b[0] = 0x47
+    if rng.random() < 0.8:
+        b[3] = (b[3] & 0xCF) | (rng.choice([2, 3, 3]) << 4)
+        if n > 4:
+            b[4] = rng.choice([0, 1, 2, 3, 4, 7, 8, 9, 13, 14, 15, 20, 50, 100, 182, 183, 184, 200, 255])
+    if n > 5 and rng.random() < 0.6:
+        b[5] = rng.choice([0x10, 0x08, 0x04, 0x02, 0x01, 0x1F, 0x03, 0x06, 0x12, 0x05, 0x00, 0xFF, rng.randrange(256)])
+    return bytes(b)
+
+def check_ts_reencode_any(args):
+    """Lean: TS_reencode_total / MPEGTS_reencode_total.  Whatever bytes (<= 188 per packet) the decoder accepts, pack() of
+    the decoded object succeeds or raises the bare Exception of the adaptation-field validation -- never struct.error,
+    TypeError (D07) or anything else"""
+    import AcraNetwork.MPEGTS as m
+    bufs = [bytes.fromhex(x) for x in args["bufs"]]
+    for b in bufs:
+        p = m.MPEGPacket()
+        try:
+            p.unpack(b)
+        except Exception:
+            continue
+        for nostuff in (False, True):
+            try:
+                p.pack(nostuff)
+            except Exception as e:
+                if type(e) is not Exception:
+                    return "re-encoding the packet decoded from %s raises %s: %s" % (hexb(b)[:60], type(e).__name__, e)
+    if all(len(b) == 188 for b in bufs):
+        ts = m.MPEGTS()
+        try:
+            ts.unpack(b"".join(bufs))
+        except Exception:
+            return None
+        try:
+            ts.pack()
+        except Exception as e:
+            if type(e) is not Exception:
+                return "re-encoding the stream decoded from %d arbitrary packets raises %s: %s" % (len(bufs), type(e).__name__, e)
+    return None
+
+ORACLES["mpeg_ts_reencode_any"] = check_ts_reencode_any
 ORACLES.update({"mpeg_ext": check_ext, "mpeg_af": check_af, "mpeg_ts_packet": check_ts_packet,
                 "mpeg_ts_unpack_n": check_ts_unpack_n, "mpeg_pmt": check_pmt, "mpeg_pes": check_pes,
                 "mpeg_stanag": check_stanag})
@@ -1084,6 +1134,10 @@ def oracles_C06(ctx, hints):
     run("mpeg_ts_unpack_n", check_ts_unpack_n, "MPEGTS",
         [{"packets": [pkt_exact(rng)[0] for _ in range(k)], "prior": [rng.bytes_(188).hex(), (b"\x47" + rng.bytes_(375)).hex()][:rng.randrange(3)]}
          for k in list(range(0, 7)) * ctx.scale(2, 40)])
+    run("mpeg_ts_reencode_any", check_ts_reencode_any, "MPEGPacket",
+        [{"bufs": [garbage_packet(rng).hex() for _ in range(rng.randrange(1, 4))]} for _ in range(ctx.scale(150, 6000) * mult)] +
+        [{"bufs": ["4700003003" + "10aabb010203", "47000030" + "07" + "04" + "ff" + "00" * 181]}],
+        tagsfn=lambda a: {"check": "reencode"})
     run("mpeg_pmt", check_pmt, "MPEGPacketPMT",
         [{"fields": pmt_valid(rng, nd, ns), "prior": _prior(rng, pmt_valid)} for nd in range(4) for ns in range(5)] +
         [{"fields": pmt_valid(rng), "prior": _prior(rng, pmt_valid)} for _ in range(ctx.scale(30, 2000) * mult)])
